@@ -70,3 +70,6 @@ TEXTS["C14"] = {"engine": "netsim", "design_ref": "DESIGN.md §4 C14", "level_no
 TEXTS["C15"] = {"engine": "netsim", "design_ref": "DESIGN.md §4 C15", "level_note": _E3_NOTE,
     "technique": "metamorphic property testing (rapid): from-anything == from-empty convergence, idempotence, frame and reference-validity on strict netfilter fakes",
     "level_text": "The real policy manager is driven over generated state pairs, event permutations and prior kernel garbage; the strict fakes reject what the kernel rejects."}
+TEXTS["C16"] = {"engine": "netsim", "design_ref": "DESIGN.md §4 C16", "level_note": _E3_NOTE,
+    "technique": "differential property testing (rapid): packet walk over the installed rules vs. a reference NetworkPolicy evaluator, exhaustive flow enumeration per generated cluster",
+    "level_text": "Every flow of a per-case universe is judged by the installed rules (packet walker over the strict fakes' tables) and by an independent evaluator of the API semantics; confirmed deviations are explicit, toggleable parts of the evaluator so that only unexplained mismatches raise an alarm."}
